@@ -36,6 +36,12 @@ def op_line(rid, op, n2=0):
         return f'{rid} tr {op[1]} {op[2]} {op[3]}'
     if k == 'close':
         return f'{rid} close'
+    if k in ('cd', 'ad'):
+        return f'{rid} {k} {op[1]} N N N N'
+    if k in ('cdc', 'adc'):
+        return f'{rid} {k[:2]} {op[1]} {op[2]} {op[3]} N N'
+    if k in ('cdw', 'adw'):
+        return f'{rid} {k[:2]} {op[1]} {op[2]} {op[3]} {op[4]} {op[5]}'
     return None
 
 
